@@ -1515,6 +1515,9 @@ func (in *Interp) evalCall(pkg *packages.Package, env *Env, call *ast.CallExpr) 
 						if _, isSlice := t.Underlying().(*types.Slice); isSlice {
 							return SliceV{}
 						}
+						if _, isMap := t.Underlying().(*types.Map); isMap {
+							return MapV{}
+						}
 					}
 				}
 				return Unk{id.Name}
@@ -1822,6 +1825,15 @@ func (in *Interp) builderCall(fn *types.Func, call *ast.CallExpr, recv Val, args
 		in.event("call", callee, pos, append([]Val{recv}, args[1:]...)...)
 		return &IRVal{Op: "call", Src: callee, Args: as, Class: callClass(callee)}
 	case "NewPhi":
+		{
+			ev := []Val{recv}
+			for _, a := range args {
+				if o, ok := a.(*Obj); ok {
+					ev = append(ev, o.get("X"), o.get("Pred"))
+				}
+			}
+			in.event("phi", "", pos, ev...)
+		}
 		var as []*IRVal
 		cl := "?"
 		for _, a := range args {
